@@ -29,6 +29,10 @@ append to / assign history variables.  Loop-carried state is exactly (x_prev, x_
 before it is written there and is neither that state nor a loop invariant makes the translation FAIL (e.g. a cached loss value).
 Anything outside this subset raises Unsupported: the tie is then reported broken, never silently skipped.
 
+LossMinimizationEstimator / CvxpyLossMinimizationEstimator .calc_estimate_sequence (and .calc_estimate): loop skeleton around oracle calls --
+one configuration + one optimisation per data set, its value appended unconditionally (no break / continue / conditional or second append),
+result built from that list, calc_estimate delegating with [empi_dists]  ->  gen_estimate_sequence / gen_cvx_estimate_sequence = map.
+
 usage: c11_py2coq.py <repo> <out.v>"""
 import ast, os, sys
 
@@ -753,6 +757,90 @@ def check_generate_variable(tree):
         fail(fdef, "generate_cvxpy_variable is %s, expected %s" % (got, want))
 
 
+
+# ------------------------------------------------------------------ the estimators' wiring (loop skeleton around oracle calls)
+def tr_estimator(tree, cls, coq_name, configure_calls, optimize_src, value_attr, single_call_kw):
+    """calc_estimate_sequence must be:  for empi_dists in empi_dists_sequence: <configure loss / algorithm for (qtomography, empi_dists)>;
+    <validation: if ...: raise>; algo_result = algo.optimize(...); estimated_var_sequence.append(algo_result.<value>); <timing / detailed-result
+    bookkeeping> -- one optimisation per data set, its value appended unconditionally, no break / continue / other append, result built from
+    estimated_var_sequence; calc_estimate must delegate to calc_estimate_sequence with [empi_dists].
+    Then  estimates = map (configure-and-optimize) data sets  -- emitted as the definition below."""
+    f = get_method(tree, cls, "calc_estimate_sequence")
+    body = strip_doc(f.body)
+    loops = [st for st in body if isinstance(st, ast.For)]
+    if len(loops) != 1 or any(isinstance(n, (ast.For, ast.While)) for st in body for n in ast.walk(st) if n is not loops[0] and st is not loops[0]):
+        fail(f, "%s.calc_estimate_sequence: expected exactly one loop" % cls)
+    loop = loops[0]
+    if not (isinstance(loop.target, ast.Name) and loop.target.id == "empi_dists" and ast.unparse(loop.iter) == "empi_dists_sequence" and not loop.orelse):
+        fail(loop, "loop header is not `for empi_dists in empi_dists_sequence`")
+    for n in ast.walk(loop):
+        if isinstance(n, (ast.Break, ast.Continue, ast.Return, ast.For, ast.While, ast.Try)) and n is not loop:
+            fail(n, "%s inside the estimation loop" % type(n).__name__)
+    top = list(loop.body)
+    seen_cfg = []
+    pos_opt = pos_app = None
+    allowed_bookkeeping = {"computation_times", "detailed_results", "loss_value_sequence"}
+    for i, st in enumerate(top):
+        src = ast.unparse(st)
+        if isinstance(st, ast.Expr) and isinstance(st.value, ast.Call):
+            call = ast.unparse(st.value)
+            if call in configure_calls:
+                if pos_opt is not None:
+                    fail(st, "configuration after the optimisation")
+                seen_cfg.append(call)
+                continue
+            if call == "estimated_var_sequence.append(algo_result.%s)" % value_attr:
+                if pos_opt is None or pos_app is not None:
+                    fail(st, "append of the estimate before the optimisation / twice")
+                pos_app = i
+                continue
+            fn = ast.unparse(st.value.func)
+            if fn.endswith(".append") and fn.split(".")[0] in allowed_bookkeeping:
+                continue
+            fail(st, "call %s in the estimation loop" % call[:80])
+        if isinstance(st, ast.Assign) and src == optimize_src:
+            if pos_opt is not None:
+                fail(st, "two optimisations per data set")
+            pos_opt = i
+            continue
+        if isinstance(st, ast.If):
+            # validation (raise) or timing / bookkeeping only; must not touch the estimates
+            for n in ast.walk(st):
+                if isinstance(n, ast.Name) and n.id in ("estimated_var_sequence", "algo_result") and isinstance(n.ctx, ast.Store):
+                    fail(st, "conditional assignment to %s" % n.id)
+                if isinstance(n, ast.Call) and ast.unparse(n.func) == "estimated_var_sequence.append":
+                    fail(st, "conditional append to estimated_var_sequence")
+            for sub in st.body + st.orelse:
+                ok = isinstance(sub, ast.Raise) or (isinstance(sub, ast.Assign) and all(isinstance(t, ast.Name) and t.id in ("start_time", "prepare_time") for t in sub.targets)) \
+                    or (isinstance(sub, ast.Expr) and isinstance(sub.value, ast.Call) and ast.unparse(sub.value.func).split(".")[0] in allowed_bookkeeping
+                        and ast.unparse(sub.value.func).endswith(".append"))
+                if not ok:
+                    fail(sub, "statement in a conditional of the estimation loop: %s" % ast.unparse(sub)[:70])
+            continue
+        fail(st, "statement in the estimation loop: %s" % src[:80])
+    if sorted(seen_cfg) != sorted(configure_calls) or pos_opt is None or pos_app is None:
+        fail(loop, "configuration calls %s, optimisation %s, append %s" % (seen_cfg, pos_opt, pos_app))
+    # nothing else writes estimated_var_sequence; the result is built from it
+    writes = [ast.unparse(n) for st in body for n in ast.walk(st) if isinstance(n, ast.Assign) and any(ast.unparse(t) == "estimated_var_sequence" for t in n.targets)]
+    if writes != ["estimated_var_sequence = []"]:
+        fail(f, "estimated_var_sequence is assigned %s" % writes)
+    apps = [n for st in body for n in ast.walk(st) if isinstance(n, ast.Call) and ast.unparse(n.func) in ("estimated_var_sequence.append", "estimated_var_sequence.extend", "estimated_var_sequence.insert")]
+    if len(apps) != 1:
+        fail(f, "estimated_var_sequence is filled in %d places" % len(apps))
+    ctor = [n for st in body for n in ast.walk(st) if isinstance(n, ast.Call) and ast.unparse(n.func).endswith("EstimationResult")]
+    if len(ctor) != 1 or not ctor[0].args or ast.unparse(ctor[0].args[0]) != "estimated_var_sequence" or not isinstance(body[-1], ast.Return) \
+            or ast.unparse(body[-1].value) != "result":
+        fail(f, "the result is not built from estimated_var_sequence")
+    # calc_estimate delegates
+    g = get_method(tree, cls, "calc_estimate")
+    gb = strip_doc(g.body)
+    want = "result = self.calc_estimate_sequence(qtomography, [empi_dists], loss, loss_option, algo, algo_option, %s)" % single_call_kw
+    if [ast.unparse(x) for x in gb] != [want, "return result"]:
+        fail(g, "%s.calc_estimate is %s" % (cls, [ast.unparse(x)[:120] for x in gb]))
+    return ("Definition %s {D V : Type} (configure_and_optimize : D -> V) (empi_dists_sequence : list D) : list V :=\n"
+            "  map configure_and_optimize empi_dists_sequence." % coq_name)
+
+
 HEADER = """(* GENERATED by gen/c11_py2coq.py from the current source of quara -- do not edit *)
 From Coq Require Import Arith List Bool String ZArith.
 From QV.Core Require Import OF Sums Mat.
@@ -815,7 +903,21 @@ def main():
     except Unsupported as e:
         print("UNSUPPORTED[cvx]: %s" % e)
         sys.exit(4)
-    open(out, "w").write(HEADER % (numv + "\n\n" + cons, isd, body, skel, losses))
+    try:
+        t4 = ast.parse(open(os.path.join(repo, "quara/protocol/qtomography/standard/loss_minimization_estimator.py")).read())
+        est1 = tr_estimator(t4, "LossMinimizationEstimator", "gen_estimate_sequence",
+                            ["loss.set_from_standard_qtomography_option_data(qtomography, loss_option, empi_dists, algo.is_gradient_required, algo.is_hessian_required)",
+                             "algo.set_from_option(algo_option)", "algo.set_constraint_from_standard_qt_and_option(qtomography, algo_option)", "algo.set_from_loss(loss)"],
+                            "algo_result = algo.optimize(loss, loss_option, algo_option, on_iteration_history=is_computation_time_required)", "value",
+                            "is_computation_time_required=is_computation_time_required, is_detailed_results_required=is_detailed_results_required")
+        t5 = ast.parse(open(os.path.join(repo, "quara/interface/cvxpy/qtomography/standard/estimator.py")).read())
+        est2 = tr_estimator(t5, "CvxpyLossMinimizationEstimator", "gen_cvx_estimate_sequence",
+                            ["loss.set_prob_dists_data_from_empi_dists(empi_dists)", "algo.set_from_loss(loss)"],
+                            "algo_result = algo.optimize()", "variable_value", "is_computation_time_required=is_computation_time_required")
+    except Unsupported as e:
+        print("UNSUPPORTED[estimator]: %s" % e)
+        sys.exit(5)
+    open(out, "w").write(HEADER % (numv + "\n\n" + cons + "\n\n" + est1 + "\n\n" + est2, isd, body, skel, losses))
 
 
 if __name__ == "__main__":
